@@ -1,6 +1,7 @@
 import NiftyVerif.Model.Pytree
 import Mathlib.Algebra.BigOperators.Group.List.Basic
 import Mathlib.Tactic.Ring
+import Mathlib.Algebra.Group.Defs
 import Mathlib.Tactic.Linarith
 import Mathlib.Analysis.Real.Sqrt
 import Mathlib.Algebra.Order.BigOperators.Group.List
@@ -361,5 +362,31 @@ theorem whereOp_flat (c : PTree Bool) (x y : PTree α) (r : PTree α)
 
 
 end whereflat
+
+section gint
+
+theorem GInt.add_def (a b : GInt) : a + b = ⟨a.re + b.re, a.im + b.im⟩ := rfl
+theorem GInt.zero_def : (0 : GInt) = ⟨0, 0⟩ := rfl
+
+/-- Gaussian integers form a commutative additive monoid: `sum_flat` / `vdot_flat` apply to complex leaves as run by the driver -/
+instance : AddCommMonoid GInt where
+  add := (· + ·)
+  zero := 0
+  add_assoc a b c := by
+    cases a; cases b; cases c
+    simp only [GInt.add_def, GInt.mk.injEq]; omega
+  zero_add a := by
+    cases a
+    simp only [GInt.add_def, GInt.zero_def, GInt.mk.injEq]; omega
+  add_zero a := by
+    cases a
+    simp only [GInt.add_def, GInt.zero_def, GInt.mk.injEq]; omega
+  add_comm a b := by
+    cases a; cases b
+    simp only [GInt.add_def, GInt.mk.injEq]; omega
+  nsmul := nsmulRec
+
+
+end gint
 
 end NiftyVerif.Pytree
